@@ -370,6 +370,15 @@ type shEmbPtrBadTag struct {
 	B          string `@Int`
 }
 
+// an embedded struct (by value) whose embedding field carries a tag of another package: still flattened into the grammar
+type ShCommon struct {
+	A string `@Ident`
+}
+type shEmbForeignTag struct {
+	ShCommon `json:",inline" yaml:",inline"`
+	B        string `parser:"@Int" json:"b"`
+}
+
 // shape-run: Build on struct shapes; prints "name\toutcome".
 func shapeRun(args []string) error {
 	debug.SetMaxStack(256 << 20)
@@ -478,6 +487,17 @@ func shapeRun(args []string) error {
 	run("ptrptr-struct-scalar", func() error { _, err := participle.Build[shPtrPtrScalar](); return err })
 	run("embedded-pointer-cycle", func() error { _, err := participle.Build[ShEmbValue](); return err })
 	run("embedded-pointer-bad-tag", func() error { _, err := participle.Build[shEmbPtrBadTag](); return err })
+	run("embedded-foreign-tag", func() error {
+		p, err := participle.Build[shEmbForeignTag]()
+		if err != nil {
+			return err
+		}
+		v, err := p.ParseString("", "a 1")
+		if err != nil || v.A != "a" || v.B != "1" {
+			return fmt.Errorf("embedded struct with a foreign tag: %+v %v", v, err)
+		}
+		return nil
+	})
 	run("complex", func() error { _, err := participle.Build[shComplex](); return err })
 	run("uintptr", func() error { _, err := participle.Build[shUintptr](); return err })
 	return nil
